@@ -19,8 +19,9 @@ structurally recursive (kernel-evaluable). Core Lean only.
 -/
 import NitroVerif.Gql.Schema
 import NitroVerif.Gen.ErrKinds
+import NitroVerif.Model.IntLit
 namespace NitroVerif.CheckCommon
-open NitroVerif.Gql
+open NitroVerif.Gql NitroVerif.IntLit
 
 abbrev Diag := ErrKind × Pos
 
@@ -57,10 +58,11 @@ def Value.isNull : Value → Bool
 def isBuiltinScalarName (n : Name) : Bool :=
   n == "Boolean" || n == "Int" || n == "Float" || n == "String" || n == "ID"
 
-/-- `is_value_compatible_type_def` for a scalar definition -/
+/-- `is_value_compatible_type_def` for a scalar definition. Since fix e3584a3 the `"Int"` arm accepts an `IntValue`
+    only when `int.value.parse::<i32>().is_ok()` (`Model/IntLit.lean`); `Float` and `ID` take integers of any size -/
 def scalarAccepts (n : Name) (v : Value) : Bool :=
   if n == "Boolean" then (match v with | .bool .. => true | .null _ => true | _ => false)
-  else if n == "Int" then (match v with | .int .. => true | .null _ => true | _ => false)
+  else if n == "Int" then (match v with | .int s _ => intLiteralFitsI32 s | .null _ => true | _ => false)
   else if n == "Float" then (match v with | .float .. => true | .int .. => true | .null _ => true | _ => false)
   else if n == "String" then (match v with | .str .. => true | .null _ => true | _ => false)
   else if n == "ID" then (match v with | .str .. => true | .int .. => true | .null _ => true | _ => false)
